@@ -107,6 +107,7 @@ func sourceBefore(ok1, ok2 bool, ranges func() (syntax.Range, syntax.Range)) boo
 }
 
 func (j *Builder) Add(d model.Directive) error {
+	cpr.VerifEvent(0, "add", d)
 	switch t := d.(type) {
 
 	case *model.Price:
